@@ -339,12 +339,18 @@ def whole_runs(ctx):
                         raise OSError(code, os.strerror(code), str(p))
                     return real_mkdir(p, mode, *a, **k)
                 os.mkdir = bad
+            old_handler = signal.signal(signal.SIGALRM, _alarm)
+            signal.setitimer(signal.ITIMER_REAL, 10.0)   # a run on three lines takes milliseconds
             try:
                 try:
                     res = ("ok", lith.run())
+                except Spin:
+                    res = ("spin",)
                 except BaseException as exc:  # pylint: disable=broad-except
                     res = ("raise", exc)
             finally:
+                signal.setitimer(signal.ITIMER_REAL, 0)
+                signal.signal(signal.SIGALRM, old_handler)
                 os.mkdir = real_mkdir
                 os.chdir(cwd)
             case = dict(fault=None if code is None else errno.errorcode[code], via="Lithium.run")
@@ -357,7 +363,10 @@ def whole_runs(ctx):
             names = sorted(os.listdir(d))
             untouched = (d / "tmp1" / "keep.txt").read_bytes() == b"old run" and os.listdir(d / "tmp1") == ["keep.txt"] and \
                 (d / "tmp2").read_bytes() == b"a file"
-            if code is not None:
+            if res[0] == "spin":
+                ctx.fail("fault-retry" if code is not None else "sequential",
+                         "run() did not return within 10 s: create_temp_dir keeps retrying (working directory holds a directory tmp1 and a FILE tmp2)", case)
+            elif code is not None:
                 if res[0] != "raise" or not isinstance(res[1], OSError) or res[1].errno != code or calls or new_sys or \
                         names != ["tc.txt", "tmp1", "tmp2"] or not untouched or path.read_bytes() != b"a\nb\nc\n":
                     ctx.fail("fault-retry", f"run() with mkdir failing ({errno.errorcode[code]}): {res!r}, {len(calls)} tests ran, "
